@@ -852,4 +852,19 @@ def rule_edgepath(ctx):
                         "explicit index orders are converted into complete, well-formed steps", lambda i: True, 4)
 
 
-RULES = [rule_consume, rule_remain, rule_complete, rule_linearids, rule_steps, rule_childless, rule_labels, rule_edgepath]
+def _shared_rules():
+    """Completion of partial caller-supplied paths needs the converters to know the number of inputs (F22)."""
+    out = []
+
+    def _mk(src_mod="c10", fn="rule_count", old="C10-COUNT", new="C05-COUNT", mn=3):
+        def rule(ctx):
+            import importlib
+            srcf = getattr(importlib.import_module("sa.rules." + src_mod), fn)
+            return C.reuse_rule(ctx, srcf, old, new, "shared clause of " + old + " (also a necessary condition here)", lambda i: True, mn)
+        rule.__name__ = "shared_" + new.lower().replace("-", "_")
+        return rule
+    out.append(_mk())
+    return out
+
+
+RULES = [rule_consume, rule_remain, rule_complete, rule_linearids, rule_steps, rule_childless, rule_labels, rule_edgepath] + _shared_rules()
